@@ -118,6 +118,8 @@ def real_replay(ob, cex):
     """replay on real verspec SpecifierSet / Version objects with the real simplify_specifiers"""
     from bfg9000.versioning import simplify_specifiers, SpecifierSet, Version
     args = cex['args']
+    if not (args and isinstance(args[0], (list, tuple))):
+        return None      # the other obligations already run the real code in the harness body
     if ob.fn == 'm_merge':
         raw = list(args[0]) + list(args[1])
         v = args[2]
